@@ -6,6 +6,7 @@ import (
 	"fmt"
 	"hash/maphash"
 	"os"
+	"runtime"
 	"runtime/debug"
 	"sort"
 	"strings"
@@ -146,6 +147,12 @@ func exploreChoiceOpts(r *evid.Run, name string, bound int, dl time.Time, worker
 	}
 	scen, newLocal := mk()
 	scen = guardScenario(r.ID, scen)
+	if workers == 1 {
+		// single-goroutine scenarios are the ones that look at state carried across calls (pooled buffers, memos):
+		// one P keeps per-P pools deterministic, also while a violation is re-executed
+		prev := runtime.GOMAXPROCS(1)
+		defer runtime.GOMAXPROCS(prev)
+	}
 	t0 := time.Now()
 	res := choice.Explore(scen, choice.Options{Bound: bound, Deadline: dl, NewLocal: newLocal, Workers: workers})
 	r.Add("evaluations", res.Executions)
